@@ -1225,6 +1225,29 @@ static void run_path(uint64_t seed, uint64_t idx, const std::string& outdir, FIL
 }
 
 // ------------------------------------------------------------------ parent
+// VERIF_KINDS (comma list) restricts the case kinds that are recorded (used when another property's check runs this
+// harness for its PATH-record cases only); crashes are always recorded
+static bool kind_wanted(const std::string& kind) {
+    static int init = 0;
+    static std::vector<std::string> want;
+    if (!init) {
+        init = 1;
+        if (const char* k = getenv("VERIF_KINDS")) {
+            std::string s(k);
+            size_t p = 0;
+            while (p <= s.size()) {
+                size_t e = s.find(',', p);
+                if (e == std::string::npos) e = s.size();
+                if (e > p) want.push_back(s.substr(p, e - p));
+                p = e + 1;
+            }
+        }
+    }
+    if (want.empty()) return true;
+    for (auto& w : want)
+        if (w == kind) return true;
+    return false;
+}
 static void absorb(Out& out, const std::string& res, const std::string& gid) {
     if (res.compare(0, 4, "HANG") == 0 || res.compare(0, 5, "CRASH") == 0 || res == "PIPEFAIL") {
         std::string id = out.add("crash", gid);
@@ -1232,6 +1255,7 @@ static void absorb(Out& out, const std::string& res, const std::string& gid) {
         out.P(id, "FAIL flexpath-crash the construction / to_polygons / record sequence ended with " + res);
         return;
     }
+    bool skip = false;
     std::string id;
     size_t pos = 0;
     while (pos < res.size()) {
@@ -1244,7 +1268,11 @@ static void absorb(Out& out, const std::string& res, const std::string& gid) {
         std::string rest = line.substr(2);
         if (tag == 'K') {
             size_t t = rest.find('\t');
+            skip = !kind_wanted(rest.substr(0, t));
+            if (skip) continue;
             id = out.add(rest.substr(0, t), t == std::string::npos ? "" : rest.substr(t + 1));
+        } else if (skip) {
+            continue;
         } else if (tag == 'I') {
             out.I(id, rest);
         } else if (tag == 'P') {
